@@ -13,7 +13,8 @@ pub(crate) fn remove_insignificant_whitespace(xot: &mut Xot, node: Node) {
 }
 
 fn is_whitespace(text: &str) -> bool {
-    text.chars().all(|c| c.is_whitespace())
+    // XML whitespace only (https://www.w3.org/TR/xml/#NT-S), not all of Unicode
+    text.chars().all(|c| matches!(c, ' ' | '\t' | '\r' | '\n'))
 }
 
 fn is_significant_text_node(xot: &Xot, node: Node) -> bool {
